@@ -87,6 +87,20 @@ fn terminal_core<P: Par<Item = Tok>>(p: P, scn: &Scenario) -> Value {
                     }
                     Value::Into(seq(p.collect_into(v)))
                 }
+                TargetKind::SplitNew => {
+                    let mut v: SplitVec<Tok, Doubling> = SplitVec::new();
+                    for x in prefix {
+                        v.push(x);
+                    }
+                    Value::Into(seq(p.collect_into(v)))
+                }
+                TargetKind::SplitLinearSmall => {
+                    let mut v: SplitVec<Tok, Linear> = SplitVec::with_linear_growth(4);
+                    for x in prefix {
+                        v.push(x);
+                    }
+                    Value::Into(seq(p.collect_into(v)))
+                }
                 TargetKind::SplitLinear => {
                     let mut v: SplitVec<Tok, Linear> = SplitVec::with_linear_growth_and_fragments_capacity(14, 64);
                     for x in prefix {
